@@ -35,6 +35,16 @@ CLAIMED = {
             'equals decode into a fresh instance. For all field values and all list lengths. Four known findings proved on the complement of their regions.',
             'Same scope restriction as C01 for FC 20/21 and the 43/14 response. A1-A10; z3/cvc5.',
             'contract-based deductive verification (pyvc VC generation from /repo AST + z3/cvc5)', 'DESIGN.md section 4 C02'),
+    'C13': ('proof', 'Decomposition of ModbusTransactionManager.execute along its call structure, each piece a lemma over the real code: the retry loop is cut at the '
+            'invariant "frames written + retries left <= retries + 1" (variant: retries left), which gives at most 1 + retries transmissions and termination of the loop '
+            'for every retries value and every transport behaviour; real _transact/_recv/_send under a transport that returns anything or raises write at most one frame, '
+            'catch transport errors (closing the connection) and let nothing else escape; real processIncomingPacket of each framer, from any state on any bytes, lets '
+            'only ModbusIOException escape; ClientDecoder.decode lets nothing escape; given those, execute never raises, returns a message or an error object, leaves '
+            'client.state == TRANSACTION_COMPLETE and no reply slot. Seven known findings (retry_on_empty alone never retries, retries=0 becomes 1, and per framing the '
+            'exception classes that do escape on garbage, reply slot left behind). Retry options honoured and recovery after fault scripts: bounded units (see note).',
+            'Blocking inside recv/sleep is the transport timeout (external). retry.* lemmas are bounded in the retry count (1..2, loop unrolled) and recover.* are an executable '
+            'bounded stand-in (fault scripts of up to 3 exchanges on the real client objects, real framers): neither is counted as proved. Transport and decoder abstracted as in C08. '
+            'A1-A10; z3/cvc5.', 'contract-based deductive verification (pyvc VC generation from /repo AST + z3/cvc5)', 'DESIGN.md section 4 C13'),
     'C14': ('proof', 'Linear-arithmetic identities proved for all quantities: get_response_pdu_size() of FC 1-6, 15, 16, 23 and every FC 8 sub-function equals '
             '1 + len(encode()) of the normal response (for FC 8: the response its own execute() builds, run on the real device control block); '
             'base_adu_size + PDU size (doubled for ASCII) equals len(buildPacket()) for RTU, ASCII, binary, TLS and TCP for an arbitrary message; '
